@@ -6,6 +6,12 @@
 #include <cstring>
 #include <set>
 #include <thread>
+#include <atomic>
+#include <chrono>
+#include <execinfo.h>
+#include <csignal>
+#include <unistd.h>
+#include <vp/interp.hpp>
 #include <vp/layers.hpp>
 #include <vp/probe.hpp>
 #include <vp/report.hpp>
@@ -50,7 +56,7 @@ void __cyg_profile_func_enter(void *, void *) __attribute__((no_instrument_funct
 void __cyg_profile_func_exit(void *, void *) __attribute__((no_instrument_function));
 void __cyg_profile_func_enter(void *, void *)
 {
-    if (g_explore_mode && Sched::tl_id >= 0 && !tl_in_fn_hook) {
+    if (g_explore_mode && Sched::tl_active && !Sched::tl_busy && !tl_in_fn_hook) {
         tl_in_fn_hook = true;
         Sched::current->point();
         tl_in_fn_hook = false;
@@ -59,6 +65,51 @@ void __cyg_profile_func_enter(void *, void *)
 void __cyg_profile_func_exit(void *, void *)
 {
 }
+}
+#endif
+
+#ifdef VP_BB_POINTS
+// Built with -fsanitize-coverage=trace-pc: the compiler calls __sanitizer_cov_trace_pc() at the start of every basic block.
+// Blocks whose enclosing symbol lives in namespace covfie (resolved once per address with dladdr; needs -rdynamic) become
+// scheduling points, which gives the explorer statement-level interleavings INSIDE library functions, e.g. between the
+// test of a "ready" flag and the write that sets it.
+#include <dlfcn.h>
+#include <unordered_map>
+static thread_local bool tl_in_bb_hook = false;
+static std::unordered_map<void *, bool> g_pc_cache;
+static std::atomic_flag g_pc_lock = ATOMIC_FLAG_INIT;
+static std::atomic<long> g_pc_contended{0};
+__attribute__((no_sanitize_coverage)) static bool pc_in_covfie_locked(void * pc);
+__attribute__((no_sanitize_coverage)) static bool pc_in_covfie(void * pc)
+{
+    if (g_pc_lock.test_and_set(std::memory_order_acquire)) {
+        ++g_pc_contended;
+        while (g_pc_lock.test_and_set(std::memory_order_acquire)) {}
+    }
+    bool r = pc_in_covfie_locked(pc);
+    g_pc_lock.clear(std::memory_order_release);
+    return r;
+}
+__attribute__((no_sanitize_coverage)) static bool pc_in_covfie_locked(void * pc)
+{
+    auto it = g_pc_cache.find(pc);
+    if (it != g_pc_cache.end()) return it->second;
+    Dl_info info;
+    bool yes = false;
+    if (dladdr(pc, &info) && info.dli_sname) {
+        const char * n = info.dli_sname;
+        yes = !std::strncmp(n, "_ZN6covfie", 10) || !std::strncmp(n, "_ZNK6covfie", 11) || !std::strncmp(n, "_ZZN6covfie", 11) || !std::strncmp(n, "_ZZNK6covfie", 12) || !std::strncmp(n, "_ZGVZN6covfie", 13);
+    }
+    g_pc_cache[pc] = yes;
+    return yes;
+}
+extern "C" __attribute__((no_sanitize_coverage)) void __sanitizer_cov_trace_pc()
+{
+    // the guard is set before anything that may itself be instrumented (TLS wrappers, the map, the scheduler)
+    if (!g_explore_mode || tl_in_bb_hook) return;
+    tl_in_bb_hook = true;
+    if (Sched::tl_active && !Sched::tl_busy && pc_in_covfie(__builtin_return_address(0))) Sched::current->point();
+    tl_in_bb_hook = false;
 }
 #endif
 
@@ -158,6 +209,11 @@ static void run_program_thread(const typename covfie::field_view<typename C::B> 
 }
 
 static std::string g_filter;
+static double g_budget_s = 120.0;  // wall-clock budget per configuration: exceeding it ends the enumeration as "capped", never as a failure
+static double now_s()
+{
+    return std::chrono::duration<double>(std::chrono::steady_clock::now().time_since_epoch()).count();
+}
 
 template <class C>
 static void explore_config(Report & R, const std::string & pname, const Program & prog, bool shared_view, int bound, uint64_t max_sched)
@@ -217,6 +273,7 @@ static void explore_config(Report & R, const std::string & pname, const Program 
         return s;
     };
     // the explorer calls run_schedule itself; wrap per-execution setup through on_exec ordering: we drive manually
+    const double t_start = now_s();
     std::vector<std::vector<int>> stack;
     stack.push_back({});
     while (!stack.empty()) {
@@ -261,7 +318,7 @@ static void explore_config(Report & R, const std::string & pname, const Program 
             else R.viol("schedule:" + C::name(), why + " (schedule " + sched_str(x) + ", " + std::to_string(x.preemptions) + " preemptions)", name + "/schedule=" + sched_str(x));
             if (R.violations > 20) break;
         }
-        if (st.schedules >= max_sched) {
+        if (st.schedules >= max_sched || now_s() - t_start > g_budget_s) {
             st.stopped = true;
             break;
         }
@@ -345,6 +402,227 @@ static void all_interps(Report & R, int bound, uint64_t max_sched, bool thorough
     programs_for<Cfg<L, N, LINEAR>>(R, bound, max_sched, thorough);
 }
 
+
+// ------------------------------------------------------------------ cold-start exploration
+// Every schedule runs in a freshly forked child: function-local statics, lazily built tables and "first use" flags are in
+// their initial state for every schedule, and the parent never performs a lookup. Expected values come from the reference
+// curves (vp::ref_*), not from the library, because a broken one-time initialisation can stay wrong for the whole process.
+#include <sys/mman.h>
+#include <sys/wait.h>
+struct ColdShared {
+    int ok;            // run_schedule accepted the prefix
+    int violated;      // oracle verdict
+    int npoints;
+    int preemptions;
+    uint64_t outcome;
+    char why[256];
+    struct P {
+        unsigned char nen, rse, chosen, en[4];
+    } pts[20000];
+};
+
+template <class C>
+static uint64_t cold_flat(const typename C::coord_t & c)
+{
+    std::vector<long double> lc;
+    double sizes[8];
+    constexpr size_t N = C::B::contravariant_input_t::dimensions;
+    for (size_t k = 0; k < N; ++k) {
+        lc.push_back(static_cast<long double>(c[k]));
+        sizes[k] = static_cast<double>(C::EXT);
+    }
+    const std::string ln = C::name();
+    if (ln.rfind("strided", 0) == 0) return ref_rowmajor(sizes, static_cast<int>(N), lc);
+    if (ln.rfind("morton", 0) == 0) return ref_morton(static_cast<int>(N), lc);
+    return ref_hilbert(sizes, lc);
+}
+
+template <class C>
+static void explore_cold(Report & R, const std::string & pname, const Program & prog, int bound, uint64_t max_sched)
+{
+    static_assert(std::is_reference_v<typename covfie::field_view<typename C::B>::output_t>, "cold mode is for reference-returning (direct / nn) stacks");
+    const std::string name = C::name() + "/" + pname + "/coldstart/bound" + std::to_string(bound);
+    if (!g_filter.empty() && name.find(g_filter) == std::string::npos) return;
+    const int T = static_cast<int>(prog.size());
+    ColdShared * sh = static_cast<ColdShared *>(mmap(nullptr, sizeof(ColdShared), PROT_READ | PROT_WRITE, MAP_SHARED | MAP_ANONYMOUS, -1, 0));
+    auto run_cold = [&](const std::vector<int> & prefix) -> bool {
+        std::memset(sh, 0, sizeof(int) * 4);
+        std::fflush(stdout);
+        pid_t pid = fork();
+        if (pid == 0) {
+            alarm(30);
+#ifdef VP_DEBUG_SEGV
+            std::signal(SIGSEGV, [](int) { void * bt[40]; int n = backtrace(bt, 40); backtrace_symbols_fd(bt, n, 2); _exit(99); });
+#endif
+            auto field = C::make();
+            // fill by FLAT index through the array view (no index computation of the layer under test)
+            auto sv = C::storage_view(field);
+            auto av = sv.get_backend();
+            for (size_t i = 0; i < av.m_size; ++i) av.at(i)[0] = static_cast<float>(1 + (i * 7) % 13 + i);
+            using view_t = covfie::field_view<typename C::B>;
+            view_t shared(field);
+            Sched sched(T);
+            Sched::current = &sched;
+            std::vector<std::vector<float>> res(T);
+            sched.body = [&](int i) { run_program_thread<C>(shared, prog[i], res[i]); };
+            Execution x;
+            g_log.clear();
+            g_explore_mode = true;
+            bool ok = run_schedule(sched, prefix, x);
+            g_explore_mode = false;
+            sh->ok = ok ? 1 : 0;
+            sh->npoints = static_cast<int>(std::min<size_t>(x.points.size(), 20000));
+            sh->preemptions = x.preemptions;
+            for (int i = 0; i < sh->npoints; ++i) {
+                sh->pts[i].nen = static_cast<unsigned char>(x.points[i].enabled.size());
+                sh->pts[i].rse = x.points[i].running_still_enabled;
+                sh->pts[i].chosen = static_cast<unsigned char>(x.points[i].chosen_index);
+                for (size_t e = 0; e < x.points[i].enabled.size() && e < 4; ++e) sh->pts[i].en[e] = static_cast<unsigned char>(x.points[i].enabled[e]);
+            }
+            uint64_t h = 1469598103934665603ull;
+            for (int t = 0; t < T; ++t) {
+                size_t r = 0;
+                for (const Action & a : prog[t]) {
+                    if (a.write) continue;
+                    const uint64_t flat = cold_flat<C>(C::reader_coord(a.k));
+                    const float expect = static_cast<float>(1 + (flat * 7) % 13 + flat);
+                    const float got = r < res[t].size() ? res[t][r] : -1.f;
+                    h = fnv_of(got, h);
+                    if (got != expect && !sh->violated) {
+                        sh->violated = 1;
+                        std::snprintf(sh->why, sizeof sh->why, "thread %d lookup %zu returned %g, the cell at that coordinate holds %g", t, r, got, expect);
+                    }
+                    ++r;
+                }
+            }
+            sh->outcome = h;
+#ifdef VP_BB_POINTS
+            if (g_pc_contended.load()) {
+                // two threads inside the hook at once would mean the scheduler let two threads run: a harness fault
+                std::fprintf(stderr, "INTERNAL: scheduling-point cache was contended %ld times\n", g_pc_contended.load());
+                _exit(98);
+            }
+#endif
+            Sched::current = nullptr;
+            _exit(0);
+        }
+        int status = 0;
+        waitpid(pid, &status, 0);
+        if (!(WIFEXITED(status) && WEXITSTATUS(status) == 0)) {
+            sh->ok = 1;
+            sh->violated = 1;
+            std::snprintf(sh->why, sizeof sh->why, "the child executing this schedule %s", WIFSIGNALED(status) ? (WTERMSIG(status) == SIGALRM ? "did not finish (deadlock / livelock)" : ("was killed by signal " + std::to_string(WTERMSIG(status))).c_str()) : ("exited with status " + std::to_string(WEXITSTATUS(status))).c_str());
+            return true;
+        }
+        return sh->ok != 0;
+    };
+    std::set<uint64_t> outcomes;
+    uint64_t schedules = 0, points = 0;
+    bool stopped = false;
+    const double t_start = now_s();
+    std::vector<std::vector<int>> stack;
+    stack.push_back({});
+    while (!stack.empty()) {
+        std::vector<int> prefix = std::move(stack.back());
+        stack.pop_back();
+        if (!run_cold(prefix)) {
+            R.viol("divergence:" + C::name(), "replaying a recorded prefix met a different set of enabled threads (cold start)", name);
+            continue;
+        }
+        ++schedules;
+        points += static_cast<uint64_t>(sh->npoints);
+        outcomes.insert(sh->outcome);
+        std::string order;
+        for (int i = 0; i < sh->npoints; ++i) order += char('0' + sh->pts[i].en[sh->pts[i].chosen]);
+        if (sh->violated) {
+            // replay before report
+            std::vector<int> full;
+            for (int i = 0; i < sh->npoints; ++i) full.push_back(sh->pts[i].chosen);
+            const std::string why = sh->why;
+            const uint64_t o1 = sh->outcome;
+            run_cold(full);
+            if (!sh->violated || sh->outcome != o1) R.viol("unstable_replay:" + C::name(), "cold-start schedule does not reproduce its observations (first run: " + why + "; replay: " + (sh->violated ? sh->why : "no violation") + ")", name + "/schedule=" + order);
+            else R.viol("schedule:" + C::name(), why + " (first use of the process; schedule " + order + ")", name + "/schedule=" + order);
+            if (R.violations > 10) break;
+            continue;
+        }
+        if (schedules >= max_sched || now_s() - t_start > g_budget_s) {
+            stopped = true;
+            break;
+        }
+        std::vector<int> choices, before(static_cast<size_t>(sh->npoints) + 1, 0);
+        int pre = 0;
+        for (int i = 0; i < sh->npoints; ++i) {
+            choices.push_back(sh->pts[i].chosen);
+            before[static_cast<size_t>(i)] = pre;
+            if (sh->pts[i].rse && sh->pts[i].chosen != 0) ++pre;
+        }
+        // copy what is needed before the shared block is overwritten by the next child
+        std::vector<ColdShared::P> pts(sh->pts, sh->pts + sh->npoints);
+        for (size_t i = pts.size(); i-- > prefix.size();) {
+            for (int alt = pts[i].nen - 1; alt >= 1; --alt) {
+                int cost = before[i] + (pts[i].rse ? 1 : 0);
+                if (bound >= 0 && cost > bound) continue;
+                std::vector<int> np(choices.begin(), choices.begin() + static_cast<long>(i));
+                np.push_back(alt);
+                stack.push_back(std::move(np));
+            }
+        }
+    }
+    munmap(sh, sizeof(ColdShared));
+    R.evaluations += schedules;
+    R.states += schedules;
+    R.transitions += points;
+    R.traces += schedules;
+    ++R.nontrivial;
+    R.counters["coldstart_schedules"] += schedules;
+    if (stopped) R.counters["configs_capped"]++;
+    char buf[300];
+    std::snprintf(buf, sizeof buf, "%s schedules=%llu points=%llu outcomes=%zu%s", name.c_str(), (unsigned long long)schedules, (unsigned long long)points, outcomes.size(), stopped ? " CAPPED" : "");
+    R.sample(buf, 400);
+}
+
+template <class L, size_t N>
+static void cold_configs(Report & R, int bound, uint64_t max_sched)
+{
+    Program two_diff = {{{false, 0, 0}}, {{false, 1, 0}}};
+    Program late_reader = {{{false, 0, 0}}, {{false, 1, 0}}, {{false, 2, 0}}};
+    explore_cold<Cfg<L, N, DIRECT>>(R, "2x1lookup", two_diff, bound, max_sched);
+    explore_cold<Cfg<L, N, DIRECT>>(R, "3x1lookup", late_reader, bound < 0 ? bound : std::min(bound, 2), max_sched);
+    explore_cold<Cfg<L, N, NN>>(R, "2x1lookup", two_diff, bound, max_sched);
+}
+
+// free-running cold start for ThreadSanitizer: the threads perform the very first lookups of the process
+template <class C>
+static void free_cold(Report & R, int T)
+{
+    auto field = C::make();
+    auto sv = C::storage_view(field);
+    auto av = sv.get_backend();
+    for (size_t i = 0; i < av.m_size; ++i) av.at(i)[0] = static_cast<float>(1 + (i * 7) % 13 + i);
+    using view_t = covfie::field_view<typename C::B>;
+    view_t shared(field);
+    std::atomic<int> ready{0};
+    std::vector<int> bad(T, 0);
+    std::vector<std::thread> th;
+    for (int t = 0; t < T; ++t) {
+        th.emplace_back([&, t] {
+            ready.fetch_add(1);
+            while (ready.load() < T) {}
+            for (int k = 0; k < 6; ++k) {
+                auto c = C::reader_coord((k + t) % 6);
+                const uint64_t flat = cold_flat<C>(c);
+                if (shared.at(c)[0] != static_cast<float>(1 + (flat * 7) % 13 + flat)) ++bad[t];
+            }
+        });
+    }
+    for (auto & x : th) x.join();
+    ++R.evaluations;
+    ++R.nontrivial;
+    for (int t = 0; t < T; ++t)
+        if (bad[t]) R.viol("free_cold:" + C::name(), "thread " + std::to_string(t) + " read a wrong cell during the first lookups of the process", C::name() + "/free_cold/T" + std::to_string(T));
+}
+
 // ------------------------------------------------------------------ free-running pass (ThreadSanitizer build)
 template <class C>
 static void free_run(Report & R, int T)
@@ -398,6 +676,7 @@ int main(int argc, char ** argv)
         size_t b = g_filter.rfind("/bound");
         if (b != std::string::npos) g_filter = g_filter.substr(0, b);
     }
+    if (const char * b = std::getenv("VP_CONFIG_BUDGET_S")) g_budget_s = std::atof(b);
     if (mode == "explore") {
         int bound = argc > 2 ? std::atoi(argv[2]) : 2;
         uint64_t max_sched = argc > 3 ? std::strtoull(argv[3], nullptr, 10) : 200000;
@@ -411,6 +690,30 @@ int main(int argc, char ** argv)
             all_interps<VP_LAYER, 3>(R, bound, max_sched, thorough);
         }
         R.counters["preemption_bound_for_large_programs"] = bound < 0 ? 999 : bound;
+    } else if (mode == "explore_cold") {
+        int bound = argc > 2 ? std::atoi(argv[2]) : 2;
+        uint64_t max_sched = argc > 3 ? std::strtoull(argv[3], nullptr, 10) : 20000;
+        if (argc > 5) g_filter = argv[5];
+        if constexpr (std::is_same_v<VP_LAYER, L_hilbert>) {
+            cold_configs<VP_LAYER, 2>(R, bound, max_sched);
+        } else {
+            cold_configs<VP_LAYER, 1>(R, bound, max_sched);
+            cold_configs<VP_LAYER, 2>(R, bound, max_sched);
+        }
+        R.counters["coldstart_preemption_bound"] = bound;
+    } else if (mode == "free_cold") {
+        g_access_hook = nullptr;
+        int T = argc > 2 ? std::atoi(argv[2]) : 4;
+        if constexpr (std::is_same_v<VP_LAYER, L_hilbert>) {
+            free_cold<Cfg<VP_LAYER, 2, DIRECT>>(R, T);
+        } else {
+            // one configuration per process: a static initialised by the first configuration would hide the next one's race
+            std::string which = argc > 3 ? argv[3] : "N2";
+            if (which == "N1") free_cold<Cfg<VP_LAYER, 1, DIRECT>>(R, T);
+            else if (which == "N3") free_cold<Cfg<VP_LAYER, 3, DIRECT>>(R, T);
+            else free_cold<Cfg<VP_LAYER, 2, NN>>(R, T);
+        }
+        R.counters["free_running_threads"] = T;
     } else if (mode == "explore_fn") {
         int bound = argc > 2 ? std::atoi(argv[2]) : 2;
         uint64_t max_sched = argc > 3 ? std::strtoull(argv[3], nullptr, 10) : 200000;
